@@ -32,7 +32,7 @@ CHECKS = [
     {
         "id": "C19", "engine": "E2/E3/E4.V1 operator consistency", "design_ref": "4 (E2, E3, E4 V1), 5 C19",
         "technique": "AST rules: super()-delegation agreement, reflected-operator operand order, operator presence by MRO, literal dispatch tables vs data-model oracle, constructor index-set abstract transfer",
-        "text": "Structural clauses of C19 only: every arithmetic dunder falls through to the same operator of its base class, reflected dunders swap operands, every operator C19 names exists for every concrete tensor class, the ufunc->dunder tables and the dispatcher's operand/name choice agree with the Python data model, arithmetic results are constructed with index sets the constructor interprets correctly for collections, and transpose derives the result's index sets as the preimage (not the image) of the source sets under the permutation. Exhaustive over all super() sites, dunders, table entries and construction sites of the package. The numbers returned and the index mapping of __getitem__ for arbitrary numpy indices are NOT decided.",
+        "text": "Structural clauses of C19 only: every arithmetic dunder falls through to the same operator of its base class, reflected dunders swap operands, every operator C19 names exists for every concrete tensor class, the ufunc->dunder tables and the dispatcher's operand/name choice agree with the Python data model, arithmetic results are constructed with index sets the constructor interprets correctly for collections, raw array arithmetic (<x>.array OP p) never receives a Tensor operand - numpy would hand it to the Tensor's reflected operator and the result would carry the other operand's index types -, and transpose derives the result's index sets as the preimage (not the image) of the source sets under the permutation. Exhaustive over all super() sites, dunders, table entries and construction sites of the package. The numbers returned and the index mapping of __getitem__ for arbitrary numpy indices are NOT decided.",
         "note": "trusts: Python data model operator table, numpy ufunc names, recognised form of Tensor.__init__ (else UNDECIDED)",
     },
     {
@@ -44,7 +44,7 @@ CHECKS = [
     {
         "id": "C06", "engine": "E6 kind closure", "design_ref": "4 (E6 K3, K4), 5 C06",
         "technique": "AST rules over every __apply__ implementation resolved by MRO for every concrete class; derived-cache attributes found by role (annotated tensor attribute assigned in __init__)",
-        "text": "Kind and cache clauses of C06 only: the result of every __apply__ is derived from self.copy()/super().__apply__ or a constructor of the receiver's family, every derived value cached on the instance (supporting line/plane of polytopes, cached_property or hand-made memo attributes) is re-assigned on the transformed object for every concrete class - self.copy() shares the instance __dict__, so a memo that is not reset answers for the ORIGINAL object -, and the type(self)(...) reconstructions in inverse/__pow__ are accepted by every transformation class. Associativity, inverse, powers and identity are numeric and NOT decided; a wrong matrix order is invisible to this check.",
+        "text": "Kind and cache clauses of C06 only: the result of every __apply__ is derived from self.copy()/super().__apply__ or a constructor of the receiver's family, every derived value cached on the instance (supporting line/plane of polytopes, cached_property or hand-made memo attributes) is re-assigned on the transformed object for every concrete class - self.copy() shares the instance __dict__, so a memo that is not reset answers for the ORIGINAL object -, every method that changes the coordinates of the receiver or of a shallow copy of it (__setitem__, expand_dims) resets every such memo, and the type(self)(...) reconstructions in inverse/__pow__ are accepted by every transformation class. Associativity, inverse, powers and identity are numeric and NOT decided; a wrong matrix order is invisible to this check.",
         "note": "thin claim by design; trusts annotations `_line: LineTensor`, `_plane: PlaneTensor` to find the derived caches",
     },
     {
@@ -68,14 +68,14 @@ CHECKS = [
     {
         "id": "C07", "engine": "E4.V2/V3 + E8 variance and conjugation", "design_ref": "4 (E4 V2, V3), 5 C07",
         "technique": "constant propagation through constructor chains along the C3 MRO; AST rule on diagram edges of __apply__",
-        "text": "Variance clauses of C07 only: for every concrete projective class the constructor chain assigns the index types C07's mechanism sentence names (points covariant, hyperplanes/lines/quadrics contravariant, dual quadrics covariant, transformations (1,1)); the generic action contracts covariant indices with the matrix and contravariant indices with an inverse, tensor_shape[0] resp. [1] times; derived values cached on the instance (duals, supporting planes) move with the object. Commutation with join/meet, the basis-point transform and cross-ratio invariance are numeric and NOT decided.",
+        "text": "Variance clauses of C07 only: for every concrete projective class the constructor chain assigns the index types C07's mechanism sentence names (points covariant, hyperplanes/lines/quadrics contravariant, dual quadrics covariant, transformations (1,1)); the generic action contracts covariant indices with the matrix and contravariant indices with an inverse, tensor_shape[0] resp. [1] times; derived values cached on the instance (duals, supporting planes, a memoised inverse) move with the object and are reset by every method that changes the coordinates. Commutation with join/meet, the basis-point transform and cross-ratio invariance are numeric and NOT decided.",
         "note": "thin claim by design; unresolvable constructor chains are UNDECIDED",
     },
     {
         "id": "C08", "engine": "E4.V2/V3 + E8 variance and conjugation", "design_ref": "4 (E8), 5 C08",
-        "technique": "AST idiom rule on product chains translation(e1) * M * translation(e2), names resolved through single assignments",
-        "text": "ONE clause of C08: wherever a map is conjugated by a translation (reflection about a mirror off the origin, Cone, RegularPolygon) the outer factors are a translation and its inverse - the suite only mirrors through the origin where the sign is invisible. All numeric content (affine embedding, Rodrigues formula, frame maps, conic map) is NOT decided.",
-        "note": "thinnest claim of the set, labelled so; zero instances or an unrecognised idiom give UNDECIDED, never an alarm",
+        "technique": "AST idiom rule on product chains translation(e1) * M * translation(e2), names resolved through single assignments; def-use dtype rule for assembled matrices; interprocedural alias/effect analysis (E1) restricted to the eight constructors and process-wide targets",
+        "text": "ONE clause of C08: wherever a map is conjugated by a translation (reflection about a mirror off the origin, Cone, RegularPolygon) the outer factors are a translation and its inverse - the suite only mirrors through the origin where the sign is invisible. Two necessary conditions in addition: the dtype of every matrix assembled by item assignment depends on all operands stored into it (no silent truncation of a fractional offset), and no constructor writes into process-wide state (module constants, class caches, objects returned by lru_cache/cache-decorated functions), so a later constructor call cannot change what an earlier result maps points to. All numeric content (affine embedding, Rodrigues formula, frame maps, conic map) is NOT decided.",
+        "note": "thin claim, labelled so; zero instances or an unrecognised idiom give UNDECIDED, never an alarm; the effect rule trusts the numpy aliasing table of E1",
     },
     {
         "id": "C11", "engine": "E7 error discipline", "design_ref": "4 (E7, E5), 5 C11",
